@@ -33,12 +33,13 @@ Oracle (independent parser = h11 in server role, plus raw-byte assertions):
   * the Deferred never fires twice; once it fired the transport has no producer
     registered.
 
-Finding with its own signature (`empty-write-ends-chunked-body:unknown-length`):
-ChunkedEncoder.write(b"") emits "0\r\n\r\n", i.e. an empty write() by a producer
-of unknown length terminates the request body early and the rest of the body (or
-at least a second terminator) follows the request as garbage.  In 60% of the
-unknown-length runs the generator avoids empty pieces (knob avoid_empty_writes),
-so every other clause is still exercised on chunked bodies.
+Finding with its own signature (`empty-write-ends-chunked-body:unknown-length`),
+genuine defect of the tree as first examined, REPAIRED in /repo b6df22e:
+ChunkedEncoder.write(b"") emitted "0\r\n\r\n", i.e. an empty write() by a producer
+of unknown length terminated the request body early and the rest of the body (or
+at least a second terminator) followed the request as garbage.  In 15% of the
+unknown-length runs the generator still avoids empty pieces (knob
+avoid_empty_writes, kept for dev-time comparison); the others let them in.
 """
 import h11
 from zope.interface import implementer
@@ -684,8 +685,8 @@ def show(results):
 
 
 MUTANTS = [
-    "(all run on top of the candidate fix for the empty-write finding, so that only the mutant can fail)",
-    "unfixed tree: ChunkedEncoder.write(b'') writes the terminating chunk -> caught (empty-write-ends-chunked-body:unknown-length) [genuine]",
+    "(all run on top of the fix for the empty-write finding - since in /repo b6df22e - so that only the mutant can fail)",
+    "tree as first examined (b6df22e reverted): ChunkedEncoder.write(b'') writes the terminating chunk -> caught (empty-write-ends-chunked-body:unknown-length) [genuine, REPAIRED in /repo b6df22e]",
     "_newclient.py ChunkedEncoder.unregisterProducer: final 0 CRLF CRLF missing -> caught (message-complete:unknown)",
     "_newclient.py _writeToBodyProducerChunked: Content-Length emitted together with chunked -> caught (framing:unknown-length)",
     "_newclient.py _writeHeaders: method/target not re-validated at write time -> caught (invalid-refused:method/target)",
